@@ -88,8 +88,8 @@ impl T {
 }
 
 struct Fns {
-	map: NativeFn!((Val) -> Val),
-	mapi: NativeFn!((u32, Val) -> Val),
+	map: NativeFn!((Thunk<Val>) -> Val),
+	mapi: NativeFn!((u32, Thunk<Val>) -> Val),
 	filt: NativeFn!((Thunk<Val>) -> bool),
 }
 
